@@ -55,6 +55,7 @@ type Loaded struct {
 	buildMu         sync.Mutex
 	AllPkgs         map[string]*packages.Package
 	instrOnce       sync.Once
+	builtPkgs       sync.Map
 	instr           *Instrumented
 	repo            string
 }
@@ -264,21 +265,27 @@ func Load(repo, verif string, prop string) (*Loaded, error) {
 	return L, nil
 }
 
-// ensureBuilt makes sure the function has a body if its package has source.
+// ensureBuilt makes sure the function's package has been built completely. Package.Build is idempotent and blocks
+// until a build started by another worker has finished (a function whose Blocks are already non-nil may still be
+// under construction there), so it is always called until the package is known to be done.
 func (L *Loaded) ensureBuilt(fn *ssa.Function) {
-	if fn.Blocks != nil {
+	p := fn.Package()
+	if p == nil {
+		if o := fn.Origin(); o != nil {
+			p = o.Package()
+		}
+	}
+	if p == nil {
+		if par := fn.Parent(); par != nil {
+			L.ensureBuilt(par)
+		}
 		return
 	}
-	L.buildMu.Lock()
-	defer L.buildMu.Unlock()
-	if fn.Blocks != nil {
+	if _, ok := L.builtPkgs.Load(p); ok {
 		return
 	}
-	if p := fn.Package(); p != nil {
-		p.Build()
-	} else if o := fn.Origin(); o != nil && o.Package() != nil {
-		o.Package().Build()
-	}
+	p.Build()
+	L.builtPkgs.Store(p, true)
 }
 
 func (L *Loaded) posStr(p token.Pos) string {
